@@ -15,7 +15,7 @@ META['C01'] = {'level': 'exploration',
          'with gain-type and random sparse contents, redundant terms, kept variables. The oracle decides A_C & '
          'hon(C1) & hon(C2) & (viol A_1 | viol A_2 | viol G_C) UNSAT on every returned result. Non-trivial = compose '
          'returned a contract; distinct = case digests.',
- 'required': ['reach:returned:wiring:indep',
+ 'required': ['reach:returned:wiring:indep', 'reach:returned:wiring:from_elim',
               'reach:returned:wiring:cascade',
               'reach:returned:wiring:cascade_rev',
               'reach:returned:wiring:shared_in',
@@ -50,7 +50,7 @@ META['C02'] = {'level': 'exploration',
          'divisor with a hidden partner, unrelated dividends, dividends assuming more / less than the divisor. The '
          'oracle decides A_C & hon(C1) & hon(Q) & (viol A_1 | viol A_Q | viol G_C) UNSAT on every returned quotient. '
          'Non-trivial = quotient returned a contract; distinct = case digests.',
- 'required': ['reach:assumptions-refine-divisor=True',
+ 'required': ['reach:assumptions-refine-divisor=True', 'reach:returned:family:shared_chain',
               'reach:assumptions-refine-divisor=False',
               'reach:returned:family:hidden_partner',
               'reach:returned:family:unrelated',
@@ -216,13 +216,13 @@ META["C12"] = {
              "fixed core of strips on which the LP solver's presolve misreports. Truth = exact rational LP (z3 "
              "Optimize): infeasible with margin -> ValueError, unbounded -> None, else value within 1e-6 relative. "
              "Non-trivial = the truth is not in the thin-infeasibility band; distinct = case digests."),
-    "required": ["events:optimize", "events:get_variable_bounds", "truth:finite", "truth:unbounded",
+    "required": ["events:optimize", "events:get_variable_bounds", "truth:finite", "truth:unbounded", "sequences",
                  "truth:infeasible", "core_cases", "agree:finite", "agree:unbounded", "agree:infeasible"],
     "assumptions": [TB, "systems that are infeasible but become feasible when relaxed by 1e-3 are not judged"],
     "soft_s": {"quick": 900, "thorough": 3000},
 }
 MANIFEST_TEXT["C12"] = {
-    "technique": RM + "optimize / get_variable_bounds executed on generated contracts, linprog boundary recorded, result compared with an exact rational LP optimum (z3 Optimize)",
+    "technique": RM + "optimize / get_variable_bounds executed on generated contracts, linprog boundary recorded, result compared with an exact rational LP optimum (z3 Optimize); sequences of objectives whose spellings differ only in white space",
     "text": ("Exploration: every optimisation answer (value / None / ValueError) of the real code is compared with the "
              "exact LP classification and optimum over Q; the solver status seen at the linprog boundary names the "
              "mechanism of a wrong answer."),
@@ -287,7 +287,7 @@ META["C14"] = {
              "exception type is classified against the documented set for that operation, operands are "
              "re-snapshotted and copied after a raise. Non-trivial = at least one public call was observed; "
              "distinct = case digests."),
-    "required": ["fault_cases", "file_fault_cases", "calls:PTL.elim_vars_by_refining", "calls:PTL.simplify",
+    "required": ["fault_cases", "file_fault_cases", "calls:PTL.elim_vars_by_refining", "calls:PTL.simplify", "refusal-chain-inspected",
                  "calls:PIC.compose_tactics", "calls:PIC.quotient_tactics", "calls:IoContract.merge",
                  "calls:ser.polyhedral_termlist_from_string", "calls:PIC.optimize",
                  "fault:read_contracts_from_file:machine:ContractFormatError",
@@ -302,7 +302,7 @@ META["C14"] = {
     "soft_s": {"quick": 900, "thorough": 3000},
 }
 MANIFEST_TEXT["C14"] = {
-    "technique": RM + "exception-type classifier on every public entry point over all workloads + adversarial shapes; exhaustive single-field faults of contract dictionaries",
+    "technique": RM + "exception-type classifier on every public entry point over all workloads + adversarial shapes; exhaustive single-field faults of contract dictionaries, each also inside multi-entry files; cause/context chain of every escaping exception inspected for a lost refusal class",
     "text": ("Exploration with an enumerated core: the exception type of every top-level public call made by every "
              "workload is classified against the documented set, operands are checked unchanged and copyable after a "
              "raise, and every single-field fault of a valid dictionary entry must be rejected with "
@@ -353,7 +353,7 @@ META["C07"] = {
              "judged: selection of the original terms, meaning kept in context (z3), no kept term implied with margin "
              "by the rest, ValueError only without an interior point; contract level: A & G unchanged. Non-trivial = "
              "at least one simplify event was judged; distinct = case digests."),
-    "required": ["events:simplify:direct", "events:simplify:nested", "events:contract-level",
+    "required": ["events:simplify:direct", "events:simplify:nested", "events:contract-level", "twin-calls",
                  "simplify:returned-on-feasible:direct", "simplify:returned-on-feasible:nested",
                  "simplify:dropped-something:direct", "simplify:raise-justified", "family:via_context",
                  "family:near_tight", "family:combinations", "family:near_ctx", "family:varfree", "family:equalities", "core_cases",
@@ -363,7 +363,7 @@ META["C07"] = {
     "soft_s": {"quick": 900, "thorough": 3000},
 }
 MANIFEST_TEXT["C07"] = {
-    "technique": RM + "wrapper on every PolyhedralTermList.simplify and on IoContract construction; exact z3 oracle for selection, equivalence in context, irredundancy with margin, justified ValueError",
+    "technique": RM + "wrapper on every PolyhedralTermList.simplify and on IoContract construction; exact z3 oracle for selection, equivalence in context, irredundancy with margin, justified ValueError; exact re-solve of every recorded LP (lp_audit) to tell a solver failure from a missing retry; print-alike twin lists simplified back to back",
     "text": ("Exploration: every simplification performed (directly, at contract construction, or nested inside the "
              "algebra) is judged by exact arithmetic for the four clauses of the property."),
     "note": "Trusted: CPython, z3, pvm/exact.py.",
@@ -499,7 +499,7 @@ META["C13"] = {
              "30% (thorough 60%) of the steps are replayed from their serialized operands in a fork of a pristine "
              "zygote process and 6 steps per history are repeated at the end of the session. Non-trivial = every "
              "executed step; distinct = step digests."),
-    "required": ["histories", "purity-snapshots", "aliasing-checks", "pristine-replays", "end-of-session-repeats",
+    "required": ["histories", "purity-snapshots", "aliasing-checks", "pristine-replays", "end-of-session-repeats", "lookalike-follow-ups", "step:from_strings:ret", "step:bounds:ret",
                  "repeat-while-result-modified",
                  "step:compose:ret", "step:quotient:ret", "step:merge:ret", "step:rename:ret", "step:copy:ret",
                  "step:elim_refine:ret", "step:elim_relax:ret", "step:lsimplify:ret", "step:optimize:ret",
@@ -509,7 +509,7 @@ META["C13"] = {
     "soft_s": {"quick": 900, "thorough": 3000},
 }
 MANIFEST_TEXT["C13"] = {
-    "technique": RM + "session driver over a shared pool with deep before/after snapshots of every live object, option list and module table; id-graph aliasing check and result mutation; replay of steps in a forked pristine interpreter and at the end of the session",
+    "technique": RM + "session driver over a shared pool with deep before/after snapshots of every live object, option list and module table; id-graph aliasing check and result mutation; replay of steps in a forked pristine interpreter and at the end of the session; look-alike operands (one -1 turned -2, texts differing only in blanks) asked the same question back to back",
     "text": ("Exploration over histories: every step of every generated session is checked for purity (all pool "
              "members, option lists, module state, every nested monitored call), for aliasing between result and "
              "operands, and for history independence against a pristine interpreter state and against its own "
